@@ -188,33 +188,44 @@ structure TIRes where
 /-- `makeError`: `end = str.data()`, `value = Int{}` -/
 def TIRes.mkErr (e : TIErr) : TIRes := ⟨0, e, 0⟩
 
+/-- the "first digit" lambda: `static_cast<Int>(-digit)` for signed types, `digit` otherwise -/
+def firstValue (t : IntTy) (digit : Int) : Except Err Int :=
+  if t.signed then t.arith (-digit) else .ok digit
+
+/-- `to_integer` from the first digit on; `neg` = a minus sign was consumed, `pos1` = current `pos` -/
+def toIntegerDigits (t : IntTy) (s : List Nat) (base : Int) (neg : Bool) (pos1 : Nat) : Except Err TIRes := do
+  let c1 ← rd s pos1
+  let digit := parseDigit t (toInt c1)
+  let value ← firstValue t digit
+  let pos2 := pos1 + 1
+  if (if value < 0 then -value else value) ≥ base then .ok (.mkErr .invalid)
+  else do
+    match ← tiLoop t base s (s.length - pos2) pos2 value with
+    | none => .ok (.mkErr .overflow)
+    | some (value, pos) =>
+      if t.signed && !neg then
+        if value == t.minV then .ok (.mkErr .overflow)
+        else do
+          let v ← t.arith (value * (-1))
+          .ok ⟨pos, .none, v⟩
+      else .ok ⟨pos, .none, value⟩
+
+/-- `to_integer` after the white-space loop, `pos0` = current `pos` -/
+def toIntegerAt (t : IntTy) (s : List Nat) (base : Int) (pos0 : Nat) : Except Err TIRes :=
+  if pos0 == s.length then .ok (.mkErr .invalid)
+  else do
+    let c0 ← rd s pos0
+    let neg := t.signed && (toInt c0 == 45)
+    let pos1 := if neg then pos0 + 1 else pos0
+    if neg && pos1 == s.length then .ok (.mkErr .invalid)
+    else toIntegerDigits t s base neg pos1
+
 /-- `to_integer<Int, {skip_whitespace = ws, check_overflow = true}>(str, base)` -/
 def toInteger (t : IntTy) (ws : Bool) (s : List Nat) (base : Int) : Except Err TIRes :=
   if base < 2 || base > 36 then .error (.pre "2 <= base <= 36")
   else do
     let pos0 ← if ws then skipWs s s.length 0 else .ok 0
-    if pos0 == s.length then .ok (.mkErr .invalid)
-    else do
-      let c0 ← rd s pos0
-      let neg := t.signed && (toInt c0 == 45)
-      let pos1 := if neg then pos0 + 1 else pos0
-      if neg && pos1 == s.length then .ok (.mkErr .invalid)
-      else do
-        let c1 ← rd s pos1
-        let digit := parseDigit t (toInt c1)
-        let value ← if t.signed then t.arith (-digit) else .ok digit
-        let pos2 := pos1 + 1
-        if (if value < 0 then -value else value) ≥ base then .ok (.mkErr .invalid)
-        else do
-          match ← tiLoop t base s (s.length - pos2) pos2 value with
-          | none => .ok (.mkErr .overflow)
-          | some (value, pos) =>
-            if t.signed && !neg then
-              if value == t.minV then .ok (.mkErr .overflow)
-              else do
-                let v ← t.arith (value * (-1))
-                .ok ⟨pos, .none, v⟩
-            else .ok ⟨pos, .none, value⟩
+    toIntegerAt t s base pos0
 
 inductive FCRes where
   | ok (v : Int) (ptr : Nat)
